@@ -168,6 +168,13 @@ impl Prop for C15 {
     fn cases(&self, tier: Tier) -> u64 {
         tier.pick(400000, 4000000)
     }
+    fn fuzz_plan(&self, tier: Tier) -> Vec<(&'static str, u64)> {
+        if tier == Tier::Thorough {
+            vec![("prop", 100000_u64)]
+        } else {
+            vec![]
+        }
+    }
     fn choice_len(&self) -> usize {
         64
     }
@@ -191,7 +198,7 @@ impl Prop for C15 {
             1 => *g.pick(&[64u16, 128, 512, 0x8000, 2, 4096]),
             _ => g.raw() as u16 & !(FLAG_UNSIGNED | FLAG_NOT_NULL),
         };
-        Case { rust_type, coltype: *g.pick(&INT_COLTYPES), unsigned: g.coin(), values: Values::List(vals), wire: g.chance(1, 10), extra_flags, straddle: if g.chance(1, 4000) { Some((g.coin(), g.irange(-70, 1))) } else { None } }
+        Case { rust_type, coltype: *g.pick(&INT_COLTYPES), unsigned: g.coin(), values: Values::List(vals), wire: g.chance(1, 10), extra_flags, straddle: if g.chance(1, 4000) && !g.fuzzing { Some((g.coin(), g.irange(-70, 1))) } else { None } }
     }
     fn fixed(&self, _tier: Tier) -> Vec<Case> {
         let mut v = Vec::new();
